@@ -32,7 +32,7 @@ def gen_workload(kind, seed, size):
         meta.pop("edb", None)
         meta.update({"template": kind, "rules": t.rules, "no_rule_min": True, "outputs": t.outputs})
         return Workload("%s:%d" % (kind, seed), t.text(), t.facts, meta, "generated")
-    g = {"c03": gen.gen_c03, "c22": gen.gen_c22}[kind]
+    g = {"c03": gen.gen_c03, "c22": gen.gen_c22, "c20": gen.gen_c20}[kind]
     p = g(seed, size)
     return Workload("%s:%d" % (kind, seed), p.text(), p.facts, p.meta, "generated")
 
@@ -86,7 +86,7 @@ CXXFLAGS = ["-std=c++17", "-O1", "-fopenmp", "-fsanitize=thread", "--param", "ts
             "-DSOUFFLE_VERIF", "-DUSE_NCURSES", "-DUSE_LIBZ", "-DUSE_SQLITE", "-w"]
 
 
-def build_compiled(exe, w, extra_src=None, extra_flags=()):
+def build_compiled(exe, w, extra_src=None, extra_flags=(), synth_args=()):
     """Synthesise the program with the simulator binary and compile it against simrt. Returns binary path or None."""
     if not w.dir or not os.path.isdir(w.dir):
         w.materialise()
@@ -94,7 +94,9 @@ def build_compiled(exe, w, extra_src=None, extra_flags=()):
     cpp = os.path.join(w.dir or psim.tmpdir("syn"), "prog.cpp")
     env = dict(os.environ)
     env["VERIF_SIM_SEED"] = "0"
-    r = subprocess.run([exe, "--no-preprocessor", "-g", cpp, prog], stdout=subprocess.PIPE, stderr=subprocess.PIPE, env=env, cwd=os.path.dirname(prog))
+    synth_args = list(synth_args) or list(w.meta.get("synth_args", []))
+    # the RAM is only parallelised when more than one job is requested at synthesis time
+    r = subprocess.run([exe, "--no-preprocessor", "-j8", "-g", cpp] + synth_args + [prog], stdout=subprocess.PIPE, stderr=subprocess.PIPE, env=env, cwd=os.path.dirname(prog))
     if r.returncode != 0 or not os.path.exists(cpp):
         return None
     text = open(cpp, "rb").read()
@@ -222,4 +224,45 @@ def oracle_c11(w, ref, res, case):
         return diff_outputs(ref["outputs"], res["outputs"])
     f = T.check_c11(w.meta, w.meta["rules"], edb_sets(w), int_outputs(res["outputs"]))
     f += diff_outputs(ref["outputs"], res["outputs"])
+    return f
+
+
+# ---------------------------------------------------------------------------------------- C20 profiling
+PROFCOUNT = os.path.join(BUILD, "sv", "profcount")
+C20_EXCLUDE = C03_EXCLUDE + ["eqrel", "btree_delete", "<="]
+
+
+def build_profcount():
+    src = os.path.join(VERIF, "psim", "profcount.cpp")
+    r = subprocess.run(["g++", "-std=c++17", "-O1", "-I", os.path.join(REPO, "src", "include"), src, "-o", PROFCOUNT, "-lpthread"], stdout=subprocess.PIPE,
+                       stderr=subprocess.PIPE)
+    if r.returncode != 0:
+        log(r.stderr.decode(errors="replace")[-2000:])
+        return False
+    return True
+
+
+def oracle_c20(w, ref, res, case):
+    # (i) enabling profiling does not change any output relation
+    f = diff_outputs(ref["outputs"], res["outputs"])
+    prof = os.path.join(res["outdir"], "prof.json")
+    if not os.path.exists(prof):
+        return f + [("profile-missing", "no profile was written")]
+    try:
+        json.load(open(prof))
+    except Exception as e:
+        return f + [("profile-malformed", "profile is not well-formed JSON: %s" % e)]
+    r = subprocess.run([PROFCOUNT, prof], stdout=subprocess.PIPE, stderr=subprocess.PIPE)
+    if r.returncode != 0:
+        return f + [("profile-unreadable", "the repository's profile reader rejects the file: %s" % r.stderr.decode(errors="replace")[:200])]
+    counts = {}
+    for line in r.stdout.decode().splitlines():
+        name, n = line.rsplit("\t", 1)
+        counts[name] = int(n)
+    # (ii) reported tuple count == number of tuples the relation holds at the end (= tuples written)
+    for rel, lines in res["outputs"].items():
+        if rel not in counts:
+            f.append(("profile-relation-missing:" + rel, "output relation %s is not reported in the profile" % rel))
+        elif counts[rel] != len(lines):
+            f.append(("profile-count:" + rel, "profile reports %d tuples for %s, the relation holds %d" % (counts[rel], rel, len(lines))))
     return f
